@@ -868,7 +868,7 @@ def _do_solve(system, resfun, info, spec, op, constrain, cmask, cvals):
         with numpy.errstate(all='ignore'):
             r = resfun(u)[numpy.isnan(want)]
         A = make_matrix(dict(spec['mat'], cplx=False))
-        scale = float(numpy.linalg.norm(A, 2)) * float(numpy.linalg.norm(u)) + 1
+        scale = float(numpy.linalg.norm(A, 2)) * max(float(numpy.linalg.norm(u)), float(numpy.linalg.norm(guess)) if guess is not None else 0.) + 1   # cancellation against a huge starting vector included
         if not float(numpy.linalg.norm(r)) <= 1e-7 * scale:
             return ('R-machine-precision', f'linear solve without tolerance on an honest back end left residual {float(numpy.linalg.norm(r)):.3e}'), 'return'
     if op.get('twice_guess') and linear and not PLAN.faults and op['cons'] != 'bool' and spec['kind'] != 'linparam' and m != 'arnoldi':
